@@ -31,13 +31,13 @@ PROPS = {
                 preds=["RequiredEnforced"]),
     "C12": dict(families=["env", "valid"], lens={"vals", "called", "as"}, rand=("C12", 6000, 150000),
                 preds=["EnvPrecedence", "CalledExact", "UntouchedKeepDefault"]),
-    "C17": dict(families=["complete"], lens={"comps", "exits", "ran", "writer"}, rand=("C17", 6000, 150000),
+    "C17": dict(families=["complete", "complete-eq"], lens={"comps", "exits", "ran", "writer"}, rand=("C17", 6000, 150000),
                 preds=["CandidatesExact", "OfferedAccepted"]),
     "C18": dict(families=["helpdoc"], lens={"help", "helpcomplete", "helpof"}, rand=("C18", 2500, 60000), relational=False,
                 preds=["HelpDocComplete (evaluated on the parsed real text)", "HelpDocOf equality", "three paths same text"]),
-    "C19": dict(families=["modes", "wrapper"], lens={"panic", "hang", "rest", "exits"}, fuzz=(16000, 800000), level="exploration",
+    "C19": dict(families=["modes", "wrapper", "complete-eq"], lens={"panic", "hang", "rest", "exits"}, fuzz=(16000, 800000), level="exploration",
                 preds=["NotStuck", "VariantDecreases (action property)", "ErrImpliesNilRest"]),
-    "C20": dict(families=["order", "complete"], lens={"nondet", "err", "derr", "comps", "warn"}, rand=[("C20", 4000, 100000), ("C20c", 2000, 50000)],
+    "C20": dict(families=["order", "complete", "complete-eq"], lens={"nondet", "err", "derr", "comps", "warn"}, rand=[("C20", 4000, 100000), ("C20c", 2000, 50000)],
                 repeat=6, twice=True, preds=["FixedRule"]),
     "C09": dict(families=["term", "conserve"], lens={"rest", "vals", "called"}, rand=("C09", 6000, 150000),
                 preds=["StopRoles", "PrefixAsUnordered", "NoStopAsUnordered", "Frozen (action property)"]),
@@ -320,6 +320,8 @@ def check(prop, tier, seed, work, replay, t0):
     if specfail:
         tr, m = specfail[0]
         d, c = find_case(tr, m["id"])
+        os.makedirs(os.path.join(VERIF, "replays"), exist_ok=True)
+        json.dump({"property": prop, "def": d, "case": c, "specfail": m["bad"]}, open(os.path.join(VERIF, "replays", "SPECFAIL-%s.json" % prop), "w"), indent=1)
         raise Broken("the specification violates its own property predicates %s on a recorded case: %s" % (m["bad"], describe(d, c)))
     # samples for the evidence file
     for r in results[:3]:
